@@ -67,6 +67,14 @@ def check(ctx):
         for then in ("rst", "resume"):
             for at in ((1, 3, 5) if thorough else (1 + (r + ctx.seed) % 3,)):
                 cases.append({"id": len(cases), "script": [], "stall": {"at": at, "then": then, "tail": 3}, "n": 0, "maxretry": r, "proto": "tcp", "big": True})
+    # the sink has read everything, then aborts the connection (RST) and goes on listening: nothing was lost, nothing is sent twice
+    for r in (0, 1, 2):
+        for k in ((2, 4, 6) if not thorough else range(2, n + 1)):
+            cases.append({"id": len(cases), "script": [["rst", k]], "n": n, "maxretry": r, "proto": "tcp", "big": k % 2 == 0})
+    # a backlog: all messages are waiting in the queue when the producer gets to them (tcp and udp; multi-kilobyte over udp)
+    cases.append({"id": len(cases), "script": [], "n": 12, "maxretry": 2, "proto": "tcp", "big": True, "burst": True})
+    cases.append({"id": len(cases), "script": [], "n": 12, "maxretry": 2, "proto": "udp", "big": True, "burst": True})
+    cases.append({"id": len(cases), "script": [], "n": 40, "maxretry": 2, "proto": "udp", "big": False, "burst": True})
     cin, cout = os.path.join(d, "cases.ndjson"), os.path.join(d, "out.ndjson")
     vlib.write_ndjson(cin, cases)
     rc, log, to = ctx.go_run(drv, "TestVerifProducerScripts", env={"VERIF_CASES": cin, "VERIF_OUT": cout, "VERIF_PAR": 12}, timeout=1500)
@@ -80,7 +88,7 @@ def check(ctx):
     by_retry = {0: [], 1: [], 2: []}
     index = {0: [], 1: [], 2: []}
     for c, r in zip(cases, res):
-        ctx.count([c["script"], c.get("stall"), c["maxretry"], c["proto"]], nontrivial=bool(c["script"] or c.get("stall")))
+        ctx.count([c["script"], c.get("stall"), c["maxretry"], c["proto"], c.get("burst", False), c["n"]], nontrivial=bool(c["script"] or c.get("stall") or c.get("burst")))
         if r.get("infra"):
             raise vlib.Infra("producer driver could not set up a scenario: " + r["infra"])
         if r.get("hung"):
@@ -92,7 +100,7 @@ def check(ctx):
             dl = end.get("delivered", [])
             if -1 in dl or any(a >= b for a, b in zip(dl, dl[1:])):
                 ctx.violation("UDP sink received %s for script %s (garbage: %s)" % (dl, c["script"], r.get("garbage")), {"case": c, "result": r}, key="udp")
-            if not c["script"] and dl != list(range(1, n + 1)):
+            if not c["script"] and dl != list(range(1, c["n"] + 1)):
                 ctx.violation("UDP sink without faults received %s" % dl, {"case": c, "result": r}, key="udp")
             continue
         if c.get("stall"):
